@@ -256,6 +256,13 @@ def _toy_mcmc(r):
         for op in ops:
             if isinstance(op, dict) and op["type"] == "HMCOperator":
                 op["joint"] = "target"
+    elif r.get("hmc_conditional") and list(r.get("hmc_params") or []) == ["x"]:
+        # HMC works on the conditional density of its own block (the terms that involve x), as a user
+        # would set it up to save evaluations: a different object from the target of the chain
+        spec.append({"id": "joint.hmc", "type": "JointDistributionModel", "distributions": ["px"] + (["pc"] if r.get("coupled") else [])})
+        for op in ops:
+            if isinstance(op, dict) and op["type"] == "HMCOperator":
+                op["joint"] = "joint.hmc"
     if r.get("dup_op") and len(ops) >= 2:
         # the same operator listed twice (by reference) before another one: legal, doubles its share
         ops.insert(1, ops[0]["id"])
